@@ -163,6 +163,11 @@ class TypeValueHead(CborArray):
         s = s[0]
         if not s:
             self.add_payload(CborItem(item=s))
+        elif isinstance(s, bytes):
+            # a byte string item is the value itself, a payload class
+            # would take it for encoded CBOR and decode it
+            self.add_payload(CborItem(item=s))
+            return
         CborArray.do_dissect_payload(self, s)
 
     def default_payload_class(self, payload):
